@@ -1,4 +1,197 @@
-import GristModel.MetaRefs
+/-
+C09  Metadata references always resolve.
+
+Model: GristModel/MetaRefs.lean (`refsResolve`, `cleanedCell`, `cleanupUpdates` ...).
+Proofs: GristProofs/MetaRefs*.lean.
+
+Hypotheses made explicit:
+ * `RefListRoundTrip`  `cellRefs true (renderRefList l) = some l` for non-empty `l`.  `parseRefList`
+   goes through `String.splitOn` / `startsWith` / `drop`, which have no usable lemmas (and do not
+   reduce in the kernel); everything about RefList columns whose cleaned list stays non-empty
+   depends on it.  It is NOT needed when all specs are plain `Ref` columns, nor when a RefList
+   becomes empty (it is then rendered as `None`).
+ * `SpecTyped d specs`  every listed column that exists has pure type "Ref" (non-list spec) /
+   "RefList" (list spec): `Column.set` then stores the cleaned values as given.
+-/
+import GristProofs.MetaRefsRemove
 namespace Grist.Doc
-theorem placeholder_C09 : True := trivial
+
+/-! ### R1: the cleaned cell -/
+
+theorem cleanedCell_refs_partial (hrt : RefListRoundTrip) (isList : Bool) (gone : List Nat) (v : Val) :
+    cellRefs isList (cleanedCell isList gone v) =
+      (cellRefs isList v).map (·.filter (fun k => !gone.contains k)) :=
+  cleanedCell_refs hrt isList gone v
+
+/-- plain `Ref` cells: no round-trip hypothesis -/
+theorem cleanedCell_refs_of_ref (gone : List Nat) (v : Val) :
+    cellRefs false (cleanedCell false gone v) =
+      (cellRefs false v).map (·.filter (fun k => !gone.contains k)) :=
+  cleanedCell_refs_ref gone v
+
+/-- cells that are not reference values are left alone -/
+theorem cleanedCell_non_ref (isList : Bool) (gone : List Nat) {v : Val}
+    (h : cellRefs isList v = none) : cleanedCell isList gone v = v :=
+  cleanedCell_not_ref isList gone h
+
+/-- cells that do not refer to a removed row are left alone -/
+theorem cleanedCell_untouched (isList : Bool) (gone : List Nat) {v : Val} {l : List Nat}
+    (h : cellRefs isList v = some l) (hn : ∀ k ∈ l, k ∉ gone) : cleanedCell isList gone v = v := by
+  apply cleanedCell_of_none_gone isList gone h
+  rw [List.any_eq_false]
+  intro k hk
+  simpa using hn k hk
+
+/-- a `Ref` to a removed row becomes 0 -/
+theorem cleanedCell_ref_zero {gone : List Nat} {v : Val} {l : List Nat}
+    (h : cellRefs false v = some l) (ha : ∃ k ∈ l, k ∈ gone) : cleanedCell false gone v = .int 0 := by
+  apply cleanedCell_ref h
+  rw [List.any_eq_true]
+  obtain ⟨k, hk, hg⟩ := ha
+  exact ⟨k, hk, by simpa using hg⟩
+
+/-- a RefList keeps its order (it is `filter`ed), and becomes `None` when nothing is left -/
+theorem cleanedCell_refList {gone : List Nat} {v : Val} {l : List Nat}
+    (h : cellRefs true v = some l) (ha : ∃ k ∈ l, k ∈ gone) :
+    cleanedCell true gone v = renderRefList (l.filter (fun k => !gone.contains k)) ∧
+    (l.filter (fun k => !gone.contains k) = [] → cleanedCell true gone v = .null) := by
+  have h1 : cleanedCell true gone v = renderRefList (l.filter (fun k => !gone.contains k)) := by
+    apply cleanedCell_list h
+    rw [List.any_eq_true]
+    obtain ⟨k, hk, hg⟩ := ha
+    exact ⟨k, hk, by simpa using hg⟩
+  exact ⟨h1, fun he => by rw [h1, he]; rfl⟩
+
+/-! ### R2: clean-up, then removal -/
+
+/-- The mechanism of `doBulkRemoveRecord`.  `hrt`: either the RefList round trip, or all specs are
+    plain `Ref` columns.  (`Normal d` is not needed.)  Self references (table = target = `t`) and
+    several specs on one table are covered: the updates are computed in `d` and applied one after
+    another, each touching only its own column. -/
+theorem cleanup_then_remove_resolves_partial {d d1 : Doc} {s : Summary} {r : DAResult}
+    {specs : List RefSpec} {t : String} {gone : List Nat}
+    (hrt : RefListRoundTrip ∨ ∀ sp ∈ specs, sp.isList = false)
+    (hwf : WF d) (hty : SpecTyped d specs) (hres : refsResolve d specs = true)
+    (h1 : applyAll d (cleanupUpdates d specs t gone) = .ok d1)
+    (h2 : docAction d1 s (.bulkRemove t gone) = .ok r) :
+    refsResolve r.doc specs = true :=
+  (cleanup_then_remove_full hrt hwf hty hres h1 (post_of_ok h2)).2.1
+
+/-- ... and no cell of a listed column whose target is `t` still refers to a removed row, neither
+    right after the clean-up (`d1`) nor after the removal (`NoRefsTo`, GristProofs/MetaRefsCleanup2) -/
+theorem no_refs_to_removed {d d1 : Doc} {s : Summary} {r : DAResult}
+    {specs : List RefSpec} {t : String} {gone : List Nat}
+    (hrt : RefListRoundTrip ∨ ∀ sp ∈ specs, sp.isList = false)
+    (hwf : WF d) (hty : SpecTyped d specs) (hres : refsResolve d specs = true)
+    (h1 : applyAll d (cleanupUpdates d specs t gone) = .ok d1)
+    (h2 : docAction d1 s (.bulkRemove t gone) = .ok r) :
+    NoRefsTo d1 specs t gone ∧ NoRefsTo r.doc specs t gone ∧ refsResolve d1 specs = true ∧ WF d1 := by
+  have h := cleanup_then_remove_full hrt hwf hty hres h1 (post_of_ok h2)
+  exact ⟨h.1.2.1, h.2.2, h.1.1, h.1.2.2⟩
+
+/-- the removal alone, once nothing refers to the rows -/
+theorem remove_unreferenced_resolves {d1 : Doc} {s : Summary} {r : DAResult} {specs : List RefSpec}
+    {t : String} {gone : List Nat} (hres : refsResolve d1 specs = true)
+    (hno : NoRefsTo d1 specs t gone) (h : docAction d1 s (.bulkRemove t gone) = .ok r) :
+    refsResolve r.doc specs = true :=
+  (bulkRemove_resolves hres hno (post_of_ok h)).1
+
+/-! ### R3: actions that cannot break resolution -/
+
+/-- record actions on a table that is neither `table` nor `target` of any spec -/
+theorem frame {d : Doc} {s : Summary} {a : DocAction} {r : DAResult} {t0 : String}
+    {specs : List RefSpec} (hwf : WF d) (ha : a.recordTable = some t0)
+    (hfr : ∀ sp ∈ specs, sp.table ≠ t0 ∧ sp.target ≠ t0) (h : docAction d s a = .ok r) :
+    refsResolve r.doc specs = refsResolve d specs :=
+  frame_post hwf ha hfr (post_of_ok h)
+
+/-- a BulkUpdateRecord that names no listed column (of that table) -/
+theorem update_unlisted_preserves {d : Doc} {s : Summary} {r : DAResult} {t0 : String}
+    {rows : List Nat} {cols : List (String × List Val)} {specs : List RefSpec} (hwf : WF d)
+    (hun : ∀ sp ∈ specs, sp.table = t0 → ∀ cv ∈ cols, cv.1 ≠ sp.col)
+    (h : docAction d s (.bulkUpdate t0 rows cols) = .ok r) :
+    refsResolve r.doc specs = refsResolve d specs :=
+  update_unlisted_post hwf hun (post_of_ok h)
+
+/-- BulkAddRecord on a table that holds no listed column (it may be a target: targets only grow).
+    The general `bulkAdd_resolving_preserves` (new rows with listed cells) is not proved. -/
+theorem bulkAdd_target_only_preserves_partial {d : Doc} {s : Summary} {r : DAResult} {t0 : String}
+    {rows : List Nat} {cols : List (String × List Val)} {specs : List RefSpec} (hwf : WF d)
+    (hnt : ∀ sp ∈ specs, sp.table ≠ t0) (hres : refsResolve d specs = true)
+    (h : docAction d s (.bulkAdd t0 rows cols) = .ok r) : refsResolve r.doc specs = true :=
+  bulkAdd_target_only_post hwf hnt hres (post_of_ok h)
+
+/-! ### R4 -/
+
+theorem refsResolve_same_invariant {d d' : Doc} (h : Same d d') (specs : List RefSpec) :
+    refsResolve d specs = refsResolve d' specs :=
+  refsResolve_same h specs
+
+/-! ### example: parents `P` (rows 1, 2), children `C` with a Ref column `p` (type "Ref:P")
+
+`pureType "Ref:P" = "Ref"` is a hypothesis because `pureType` (`String.splitOn`) does not evaluate in
+the kernel; the clean-up actions and the run are computed. -/
+
+def exRefDoc : Doc :=
+  [ { id := "P", rows := [1, 2], cols := [] },
+    { id := "C", rows := [1, 2, 3],
+      cols := [{ id := "p",
+                 info := { type := "Ref:P", isFormula := false, formula := "", reverseColId := none },
+                 cells := fun r => if r = 1 then .int 1 else if r = 2 then .int 2
+                                   else if r = 3 then .int 2 else typeDefault "Ref:P" }] } ]
+
+def exSpecs : List RefSpec := [{ table := "C", col := "p", target := "P", isList := false }]
+
+theorem exRefDoc_WF : WF exRefDoc := by
+  refine ⟨by decide, ?_⟩
+  intro tb htb
+  simp only [exRefDoc, List.mem_cons, List.not_mem_nil, or_false] at htb
+  rcases htb with rfl | rfl
+  · exact ⟨by simp, by simp, by simp, by simp⟩
+  · refine ⟨by simp, by simp, by simp, ?_⟩
+    intro col hcol r hr
+    simp only [List.mem_singleton] at hcol
+    subst hcol
+    have h1 : r ≠ 1 := by intro h; subst h; simp at hr
+    have h2 : r ≠ 2 := by intro h; subst h; simp at hr
+    have h3 : r ≠ 3 := by intro h; subst h; simp at hr
+    simp [h1, h2, h3]
+
+theorem exRefDoc_typed (hty : pureType "Ref:P" = "Ref") : SpecTyped exRefDoc exSpecs := by
+  intro sp hsp tb col hft hfc
+  simp only [exSpecs, List.mem_singleton] at hsp
+  subst hsp
+  have e : findTable? exRefDoc "C" = some _ := rfl
+  rw [e] at hft
+  cases hft
+  simp only [Table.findCol?, List.find?_cons, beq_self_eq_true, Option.some.injEq] at hfc
+  subst hfc
+  exact hty
+
+example : refsResolve exRefDoc exSpecs = true := by decide
+
+/-- the clean-up for removing parent 2 clears the two children pointing at it -/
+example : cleanupUpdates exRefDoc exSpecs "P" [2] =
+    [.bulkUpdate "C" [2, 3] [("p", [.int 0, .int 0])]] := by decide
+
+example (hty : pureType "Ref:P" = "Ref") : ∃ d1 r,
+    applyAll exRefDoc (cleanupUpdates exRefDoc exSpecs "P" [2]) = .ok d1 ∧
+    docAction d1 {} (.bulkRemove "P" [2]) = .ok r ∧
+    refsResolve r.doc exSpecs = true ∧ NoRefsTo r.doc exSpecs "P" [2] := by
+  have h1 : applyAll exRefDoc (cleanupUpdates exRefDoc exSpecs "P" [2]) = .ok _ := rfl
+  have h2 : docAction _ {} (.bulkRemove "P" [2]) = .ok _ :=
+    (rfl : docAction (match applyAll exRefDoc (cleanupUpdates exRefDoc exSpecs "P" [2]) with
+      | .ok x => x | .error _ => []) {} (.bulkRemove "P" [2]) = .ok _)
+  have hrt : RefListRoundTrip ∨ ∀ sp ∈ exSpecs, sp.isList = false := by
+    right; intro sp hsp
+    simp only [exSpecs, List.mem_singleton] at hsp
+    subst hsp; rfl
+  exact ⟨_, _, h1, h2,
+    cleanup_then_remove_resolves_partial hrt exRefDoc_WF (exRefDoc_typed hty) (by decide) h1 h2,
+    (no_refs_to_removed hrt exRefDoc_WF (exRefDoc_typed hty) (by decide) h1 h2).2.1⟩
+
+/-- without the clean-up the removal leaves dangling references: the check is not vacuous -/
+example : ∃ r, docAction exRefDoc {} (.bulkRemove "P" [2]) = .ok r ∧
+    refsResolve r.doc exSpecs = false := ⟨_, rfl, by decide⟩
+
 end Grist.Doc
